@@ -281,7 +281,18 @@ impl RefT {
         } else {
             self.be16(hashed.len());
         }
-        self.put_all(hashed);
+        // in 16-octet pieces (put_all is straight-line up to 16)
+        let hl = hashed.len();
+        if hl <= 16 {
+            self.put_all(hashed);
+        } else if hl <= 32 {
+            self.put_all(&hashed[..16]);
+            self.put_all(&hashed[16..]);
+        } else {
+            self.put_all(&hashed[..16]);
+            self.put_all(&hashed[16..32]);
+            self.put_all(&hashed[32..]);
+        }
         let len = self.n - start;
         self.put(ver);
         self.put(0xff);
@@ -1118,3 +1129,161 @@ fn c15_cert_alignment(sig_v6: bool) {
 }
 sproof!(c15_align_cert_v4sig, 10, { c15_cert_alignment(false) });
 sproof!(c15_align_cert_v6sig, 10, { c15_cert_alignment(true) });
+
+// ---------------------------------------------------------------------------------------------
+// hashed area = creation time + one *known* subpacket kind (V concrete per instance), against the RFC 9580
+// 5.2.3.x wire form written out by hand: length octet, type octet (| 0x80 if critical), body.
+fn fields_known<const V: u8>(v6: bool) {
+    let t: u32 = kani::any();
+    let c: bool = kani::any();
+    let x: [u8; 4] = kani::any();
+    let kid: [u8; 8] = kani::any();
+    let fpb: u8 = kani::any();
+    let mut wire = [0u8; 48];
+    let tb = t.to_be_bytes();
+    wire[0] = 5;
+    wire[1] = 2;
+    wire[2] = tb[0];
+    wire[3] = tb[1];
+    wire[4] = tb[2];
+    wire[5] = tb[3];
+    let crit = (c as u8) << 7;
+    let (data, blen): (SubpacketData, usize) = match V {
+        // signature expiration time (3), 4 octets
+        0 => {
+            wire[6] = 5;
+            wire[7] = 3 | crit;
+            wire[8..12].copy_from_slice(&x);
+            (SubpacketData::SignatureExpirationTime(crate::types::Duration::from_secs(u32::from_be_bytes(x))), 4)
+        }
+        // key expiration time (9)
+        1 => {
+            wire[6] = 5;
+            wire[7] = 9 | crit;
+            wire[8..12].copy_from_slice(&x);
+            (SubpacketData::KeyExpirationTime(crate::types::Duration::from_secs(u32::from_be_bytes(x))), 4)
+        }
+        // issuer key id (16), 8 octets
+        2 => {
+            wire[6] = 9;
+            wire[7] = 16 | crit;
+            wire[8..16].copy_from_slice(&kid);
+            (SubpacketData::IssuerKeyId(KeyId::new(kid)), 8)
+        }
+        // exportable certification (4), revocable (7), primary user id (25): one boolean octet
+        3 => {
+            wire[6] = 2;
+            wire[7] = 4 | crit;
+            wire[8] = (x[0] & 1);
+            (SubpacketData::ExportableCertification(x[0] & 1 == 1), 1)
+        }
+        4 => {
+            wire[6] = 2;
+            wire[7] = 7 | crit;
+            wire[8] = (x[0] & 1);
+            (SubpacketData::Revocable(x[0] & 1 == 1), 1)
+        }
+        5 => {
+            wire[6] = 2;
+            wire[7] = 25 | crit;
+            wire[8] = (x[0] & 1);
+            (SubpacketData::IsPrimary(x[0] & 1 == 1), 1)
+        }
+        // trust signature (5): depth, amount
+        6 => {
+            wire[6] = 3;
+            wire[7] = 5 | crit;
+            wire[8] = x[0];
+            wire[9] = x[1];
+            (SubpacketData::TrustSignature(x[0], x[1]), 2)
+        }
+        // issuer fingerprint (33): version octet + fingerprint, version must match the signature version
+        _ => {
+            if v6 {
+                wire[6] = 34;
+                wire[7] = 33 | crit;
+                wire[8] = 6;
+                let mut k = 0;
+                while k < 32 {
+                    wire[9 + k] = fpb;
+                    k += 1;
+                }
+                (SubpacketData::IssuerFingerprint(Fingerprint::V6([fpb; 32])), 33)
+            } else {
+                wire[6] = 22;
+                wire[7] = 33 | crit;
+                wire[8] = 4;
+                let mut k = 0;
+                while k < 20 {
+                    wire[9 + k] = fpb;
+                    k += 1;
+                }
+                (SubpacketData::IssuerFingerprint(Fingerprint::V4([fpb; 20])), 21)
+            }
+        }
+    };
+    let total = 6 + 2 + blen;
+    let sp1 = Subpacket { is_critical: false, data: SubpacketData::SignatureCreationTime(Timestamp::from_secs(t)), len: SubpacketLength::One(5) };
+    let sp2 = Subpacket { is_critical: c, data, len: SubpacketLength::One((blen + 1) as u8) };
+    let salt = SALT16;
+    mk_cfg!(cfg, harr, ustore, v6, SignatureType::Binary, 1u8, salt, [sp1, sp2]);
+    let halg = HashAlgorithm::Sha256;
+    let mut h = match okf(halg.new_hasher()) {
+        Some(h) => h,
+        None => return,
+    };
+    match okf(cfg.hash_signature_data(&mut h)) {
+        None => assert!(false, "C11: hashing a known (even critical) subpacket failed"),
+        Some(len) => {
+            match okf(cfg.trailer(len)) {
+                None => assert!(false),
+                Some(tr) => {
+                    h.update(&tr);
+                    core::mem::forget(tr);
+                }
+            }
+            let got = h.finalize();
+            let mut rt = RefT::new();
+            rt.sig_fields(v6, 0, 1, 8, &wire[..total]);
+            match rt.digest(halg) {
+                Some(w) => {
+                    assert!(eq_bytes(&w, &got), "C11: hashed area with a known subpacket differs from its RFC 9580 5.2.3 wire form");
+                    core::mem::forget(w);
+                }
+                None => assert!(false),
+            }
+            core::mem::forget(got);
+        }
+    }
+    core::mem::forget(cfg);
+}
+sproof!(c11_sp_sig_expiration, 36, { fields_known::<0>(false) });
+sproof!(c11_sp_key_expiration, 36, { fields_known::<1>(false) });
+sproof!(c11_sp_issuer_keyid, 36, { fields_known::<2>(false) });
+sproof!(c11_sp_exportable, 36, { fields_known::<3>(false) });
+sproof!(c11_sp_revocable, 36, { fields_known::<4>(true) });
+sproof!(c11_sp_primary_uid, 36, { fields_known::<5>(false) });
+sproof!(c11_sp_trust, 36, { fields_known::<6>(false) });
+sproof!(c11_sp_issuer_fpr_v4, 36, { fields_known::<7>(false) });
+sproof!(c11_sp_issuer_fpr_v6, 36, { fields_known::<7>(true) });
+
+/// C15: an issuer fingerprint whose key version does not match the signature version is refused
+fn issuer_fpr_mismatch(v6: bool) {
+    let t: u32 = kani::any();
+    let fpb: u8 = kani::any();
+    // the *other* version's fingerprint
+    let data = if v6 { SubpacketData::IssuerFingerprint(Fingerprint::V4([fpb; 20])) } else { SubpacketData::IssuerFingerprint(Fingerprint::V6([fpb; 32])) };
+    let blen = if v6 { 21 } else { 33 };
+    let sp1 = Subpacket { is_critical: false, data: SubpacketData::SignatureCreationTime(Timestamp::from_secs(t)), len: SubpacketLength::One(5) };
+    let sp2 = Subpacket { is_critical: false, data, len: SubpacketLength::One((blen + 1) as u8) };
+    let salt = SALT16;
+    mk_cfg!(cfg, harr, ustore, v6, SignatureType::Binary, 1u8, salt, [sp1, sp2]);
+    let mut h = match okf(HashAlgorithm::Sha256.new_hasher()) {
+        Some(h) => h,
+        None => return,
+    };
+    assert!(!is_okf(cfg.hash_signature_data(&mut h)), "C15: issuer fingerprint of a different key version accepted in the hashed area");
+    core::mem::forget(cfg);
+}
+sproof!(c15_issuer_fpr_mismatch_v4sig, 36, { issuer_fpr_mismatch(false) });
+sproof!(c15_issuer_fpr_mismatch_v6sig, 36, { issuer_fpr_mismatch(true) });
